@@ -196,7 +196,9 @@ macro_rules! mem_limit_harness {
                 Err(Error::OutOfMemory { limit: l, needed }) => {
                     // error is the documented one and reports the real numbers
                     assert!(*l == limit);
-                    assert!(*needed == before.saturating_add(size));
+                    // `needed` is what the allocation would have brought the heap to (payload, with or without header)
+                    assert!(*needed >= before.saturating_add(size));
+                    assert!(*needed <= before.saturating_add(size).saturating_add(hdr));
                     assert!(*needed >= limit);
                 }
                 Err(_) => assert!(false),
@@ -213,9 +215,8 @@ macro_rules! mem_limit_harness {
                 // failed allocation leaves the heap untouched
                 assert!(after == before);
                 assert!(gc.values.is_some() == had_values);
-                // and it fails only when the allocation really does not fit
-                assert!(before.saturating_add(hdr).saturating_add(size) > limit
-                        || before.saturating_add(size) >= limit);
+                // and it fails only when the allocation really would reach the limit
+                assert!(before.saturating_add(hdr).saturating_add(size) >= limit);
             }
             assert!(gc.memory_limit == limit);
             mem::forget(gc);
@@ -225,4 +226,39 @@ macro_rules! mem_limit_harness {
 
 mem_limit_harness!(c07__mem_limit__alloc_owned_u8, u8, kani::any());
 mem_limit_harness!(c07__mem_limit__alloc_owned_u64, u64, kani::any());
-mem_limit_harness!(c07__mem_limit__alloc_owned_tuple, (u64, u64, u64, u64, u8), kani::any());
+
+// ---------------------------------------------------------------- C07 / check-collect
+struct NoRoots;
+unsafe impl Trace for NoRoots {
+    impl_trace! { self, _gc, {} }
+}
+impl CollectScope for NoRoots {
+    fn scope<F>(&self, gc: &mut Gc, f: F)
+    where
+        F: FnOnce(&mut Gc),
+    {
+        f(gc)
+    }
+}
+
+/// The collection trigger: a collection runs exactly when the accounted memory has reached the
+/// collect limit, and afterwards the limit is twice what survived (so the heap can at most double
+/// between collections).  Empty heap (the sweep loop body is not entered), symbolic counters.
+#[kani::proof]
+#[kani::unwind(2)]
+fn c07__check_collect__trigger_iff_limit_reached() {
+    let mut gc = sym_gc();
+    kani::assume(gc.allocated_memory <= isize::MAX as usize);
+    let before = gc.allocated_memory;
+    let climit = gc.collect_limit;
+    let mlimit = gc.memory_limit;
+    let collected = unsafe { gc.check_collect(NoRoots) };
+    assert!(collected == (before >= climit));
+    assert!(gc.memory_limit == mlimit);
+    if collected {
+        assert!(gc.collect_limit == 2 * gc.allocated_memory);
+    } else {
+        assert!(gc.collect_limit == climit && gc.allocated_memory == before);
+    }
+    mem::forget(gc);
+}
